@@ -213,20 +213,59 @@ Definition framebuffer (m : mem) (info : N) : outcome (option fbinfo) :=
 (** ---- GetBootCmdLine ---- *)
 Definition text : Type := list N.
 
-(** ASCII white space of strings.Fields *)
+(** ASCII white space of strings.Fields / unicode.IsSpace *)
 Definition is_space (c : N) : bool :=
   (c =? 9) || (c =? 10) || (c =? 11) || (c =? 12) || (c =? 13) || (c =? 32).
 
-(** strings.Fields on ASCII text: [cur] is the field being accumulated (reversed) *)
-Fixpoint fields_loop (s : text) (cur : option text) : list text :=
+Fixpoint has_prefix (p s : text) : bool :=
+  match p with
+  | [] => true
+  | a :: p' => match s with [] => false | b :: s' => (a =? b) && has_prefix p' s' end
+  end.
+
+(** the non-ASCII white space of unicode.IsSpace in UTF-8: U+0085, U+00A0, U+1680, U+2000..U+200A,
+    U+2028, U+2029, U+202F, U+205F, U+3000.  UTF-8 decoding restarts at every lead byte (an invalid
+    sequence is a width-1 RuneError, never white space), so such a sequence is white space
+    wherever it occurs in the byte string. *)
+Definition unicode_spaces : list text :=
+  [ [194; 133]; [194; 160]; [225; 154; 128];
+    [226; 128; 128]; [226; 128; 129]; [226; 128; 130]; [226; 128; 131]; [226; 128; 132]; [226; 128; 133];
+    [226; 128; 134]; [226; 128; 135]; [226; 128; 136]; [226; 128; 137]; [226; 128; 138];
+    [226; 128; 168]; [226; 128; 169]; [226; 128; 175]; [226; 129; 159]; [227; 128; 128] ].
+
+(** number of bytes of the white-space rune at the head of [s]; 0 if there is none *)
+Definition space_width (s : text) : nat :=
+  match s with
+  | [] => O
+  | c :: _ =>
+      if is_space c then 1%nat
+      else match find (fun p => has_prefix p s) unicode_spaces with
+           | Some p => length p
+           | None => O
+           end
+  end.
+
+(** strings.Fields (ASCII fast path and the unicode.IsSpace path agree on this description):
+    [cur] is the field being accumulated (reversed), [skip] the remaining bytes of a multi-byte
+    white-space rune *)
+Fixpoint fields_loop (s : text) (cur : option text) (skip : nat) : list text :=
   match s with
   | [] => match cur with Some w => [rev w] | None => [] end
   | c :: r =>
-      if is_space c then
-        match cur with Some w => rev w :: fields_loop r None | None => fields_loop r None end
-      else fields_loop r (Some (c :: match cur with Some w => w | None => [] end))
+      match skip with
+      | S k => fields_loop r cur k
+      | O =>
+          match space_width s with
+          | O => fields_loop r (Some (c :: match cur with Some w => w | None => [] end)) O
+          | S k =>
+              match cur with
+              | Some w => rev w :: fields_loop r None k
+              | None => fields_loop r None k
+              end
+          end
+      end
   end.
-Definition fields (s : text) : list text := fields_loop s None.
+Definition fields (s : text) : list text := fields_loop s None O.
 
 (** strings.Split(s, "=") *)
 Fixpoint split_eq_loop (s : text) (cur : text) : list text :=
